@@ -39,6 +39,10 @@ def wsum(a, w=0, z=0):
 def slen(a, s):
     # sensitive to every character of a string argument (runs of blanks included)
     return a * 0 + len(s) + 10 * s.count(' ')
+def lowd(a, n, k=0):
+    # sensitive to the LAST digits of an integer argument (an int64 id, a nanosecond time stamp): a literal
+    # that went through a float on its way loses them above 2**53
+    return a * 0 + (n % 1000) + 7 * (k % 1000)
 def tcode(a, *vals, **kw):
     # tells apart literals that are == but of different type (1, 1.0, True)
     codes = {'bool': 2, 'int': 3, 'float': 5, 'str': 7, 'NoneType': 11}
@@ -76,7 +80,11 @@ def _tree(rng, depth, numeric=True):
         n = 2 if rng.random() < 0.15 else 1
         return ast.Compare(_tree(rng, depth - 1), [rng.choice(CMPOPS)() for _ in range(n)],
                            [_tree(rng, depth - 1) for _ in range(n)])
-    fn = rng.choice(["add3", "pick", "twice", "tcode", "slen", "wsum", "lib"])
+    fn = rng.choice(["add3", "pick", "twice", "tcode", "slen", "wsum", "lib", "lowd"])
+    if fn == "lowd":
+        big = [9007199254740993, 1700000000123456789, 2 ** 53 + 1, 2 ** 62 + 3, 10 ** 17 + 1, 2 ** 53 - 1, 123456789]
+        kws = [ast.keyword("k", ast.Constant(rng.choice(big)))] if rng.random() < 0.4 else []
+        return ast.Call(ast.Name("lowd", ast.Load()), [_tree(rng, depth - 1), ast.Constant(rng.choice(big))], kws)
     if fn == "lib":
         # dotted callees of three, four and five parts; the objects on the way have look-alike siblings
         path = rng.choice([["lib", "stats", "zs"], ["lib", "v1", "stats", "zs"], ["lib", "v1", "util", "stats", "zs"],
@@ -164,7 +172,7 @@ def gen(rng, tier):
     pairs = [("add3(x, c=1)", "add3(x, c=2)"), ("add3(x, 1)", "add3(x, 2)"), ("add3(x, b=1)", "add3(x, c=1)"),
              ("pick(x, which='first')", "pick(x, which='second')"), ("pick(x, flag=True)", "pick(x, flag=False)"),
              ("twice(x)", "twice(z)"), ("add3(x, c=z)", "add3(x, c=w)"), ("add3(x,c=1)", "add3( x , c = 1 )"),
-             ("pick(x, other=None)", "pick(x, other=z)"), ("I(x + 1)", "I(x + 2)"), ("add3(x, z, c=w)", "add3(x, z, c=x)")]
+             ("pick(x, other=None)", "pick(x, other=z)"), ("lowd(x, 9007199254740993)", "lowd(x, 9007199254740992)"), ("I(x + 1)", "I(x + 2)"), ("add3(x, z, c=w)", "add3(x, z, c=x)")]
     for a, b in pairs:
         for joiner in (" + ", ":", " + z - "):
             cases.append({"expr": a, "src": a, "wrapper": "%s" + joiner + b, "frame": rng.choice(fr_cache), "kind": "pair",
@@ -186,13 +194,13 @@ def _formula(c, src=None):
 def _extra():
     ns = {}
     exec(USER, ns)
-    return {k: v for k, v in ns.items() if k in ("add3", "pick", "twice", "tcode", "slen", "wsum", "lib")}
+    return {k: v for k, v in ns.items() if k in ("add3", "pick", "twice", "tcode", "slen", "wsum", "lib", "lowd")}
 
 
 def model_cmd(c):
     import core
     return core.sshow(["c12", _formula(c), dm.frame_sexp(c["frame"]), "drop",
-                       [["add3", ["opaque"]], ["pick", ["opaque"]], ["twice", ["opaque"]], ["tcode", ["opaque"]], ["slen", ["opaque"]], ["wsum", ["opaque"]], ["lib", ["opaque"]]]])
+                       [["add3", ["opaque"]], ["pick", ["opaque"]], ["twice", ["opaque"]], ["tcode", ["opaque"]], ["slen", ["opaque"]], ["wsum", ["opaque"]], ["lib", ["opaque"]], ["lowd", ["opaque"]]]])
 
 
 def impl_obs(c):
